@@ -80,14 +80,34 @@ static std::string run_workload (const Group &g, MemFile &mf, long long frames, 
 		if (r < 0 || r > fr) bad = "read_count_out_of_range|returned " + std::to_string ((long long) r) + " of " + std::to_string (fr) ;
 		else if (r1 - r0 != r && !(r0 + r > r1 && r1 >= 0 && r1 == info.frames)) bad = "read_position_ne_count|returned " + std::to_string ((long long) r) + " position moved " + std::to_string ((long long) (r1 - r0)) ;
 	} ;
+	// geometry as the handle reports it (a fault during the open may have changed what the parser saw)
+	int fmt_now = mode == SFM_WRITE ? g.format : ((g.format & SF_FORMAT_TYPEMASK) | (info.format & SF_FORMAT_SUBMASK)) ; int ch_now = mode == SFM_WRITE ? ch : info.channels ;
+	const Codec *cdc = codec_of (fmt_now) ; bool gran = is_granular (g.format) && cdc && cdc->granular && cdc->bytes > 0 && ch_now >= 1 && ch_now <= 1024 ; long long bw = gran ? (long long) cdc->bytes * ch_now : 1 ;
+	// raw transfers (sample-granular encodings): the position moves by returned bytes / bytes per frame
+	auto do_write_raw = [&] (long long fr)
+	{	std::vector<uint8_t> b ((size_t) (fr * bw)) ; for (size_t i = 0 ; i < b.size () ; i++) b [i] = (uint8_t) (i * 7 + 1) ;
+		sf_count_t r0, w0, r1, w1 ; sf_verif_get_positions (f, &r0, &w0) ;
+		sf_count_t w = sf_write_raw (f, b.data (), fr * bw) ;
+		sf_verif_get_positions (f, &r1, &w1) ; snap () ;
+		if (w < 0 || w > fr * bw) bad = "write_count_out_of_range|sf_write_raw returned " + std::to_string ((long long) w) + " of " + std::to_string (fr * bw) ;
+		else if (w1 - w0 != w / bw) bad = "write_position_ne_count|sf_write_raw returned " + std::to_string ((long long) w) + " bytes (" + std::to_string ((long long) (w / bw)) + " frames), position moved " + std::to_string ((long long) (w1 - w0)) ;
+	} ;
+	auto do_read_raw = [&] (long long fr)
+	{	std::vector<uint8_t> b ((size_t) (fr * bw), 0x5a) ;
+		sf_count_t r0, w0, r1, w1 ; sf_verif_get_positions (f, &r0, &w0) ;
+		sf_count_t r = sf_read_raw (f, b.data (), fr * bw) ;
+		sf_verif_get_positions (f, &r1, &w1) ; snap () ;
+		if (r < 0 || r > fr * bw) bad = "read_count_out_of_range|sf_read_raw returned " + std::to_string ((long long) r) + " of " + std::to_string (fr * bw) ;
+		else if (r1 - r0 != r / bw && !(r0 + r / bw > r1 && r1 >= 0 && r1 == info.frames)) bad = "read_position_ne_count|sf_read_raw returned " + std::to_string ((long long) r) + " bytes, position moved " + std::to_string ((long long) (r1 - r0)) ;
+	} ;
 	auto do_seek = [&] (sf_count_t off, int whence)
 	{	SF_INFO ci ; memset (&ci, 0, sizeof (ci)) ; sf_command (f, SFC_GET_CURRENT_SF_INFO, &ci, sizeof (ci)) ;
 		sf_count_t tgt = (whence & 3) == SEEK_END ? ci.frames + off : off ;
 		sf_count_t got = sf_seek (f, off, whence) ; snap () ;
 		if (got != -1 && got != tgt) bad = "seek_result|target " + std::to_string ((long long) tgt) + " returned " + std::to_string ((long long) got) ;
 	} ;
-	if (g.wl == W_WRITE) { for (int k = 0 ; k < 3 && bad.empty () ; k++) do_write (k == 1 ? blk + 2 : blk) ; if (bad.empty ()) { sf_command (f, SFC_UPDATE_HEADER_NOW, nullptr, 0) ; snap () ; do_write (2) ; } }
-	else if (g.wl == W_READ) { do_read (blk + blk / 2) ; if (bad.empty ()) do_seek (blk + 2, SEEK_SET) ; if (bad.empty ()) do_read (3 * blk) ; if (bad.empty ()) { char log [256] ; sf_command (f, SFC_GET_LOG_INFO, log, sizeof (log)) ; double mx ; sf_command (f, SFC_CALC_SIGNAL_MAX, &mx, sizeof (mx)) ; snap () ; } }
+	if (g.wl == W_WRITE) { for (int k = 0 ; k < 3 && bad.empty () ; k++) do_write (k == 1 ? blk + 2 : blk) ; if (bad.empty ()) { sf_command (f, SFC_UPDATE_HEADER_NOW, nullptr, 0) ; snap () ; do_write (2) ; } if (bad.empty () && gran) do_write_raw (50) ; if (bad.empty () && gran) do_write_raw (3) ; }
+	else if (g.wl == W_READ) { do_read (blk + blk / 2) ; if (bad.empty ()) do_seek (blk + 2, SEEK_SET) ; if (bad.empty () && gran) do_read_raw (5) ; if (bad.empty ()) do_read (3 * blk) ; if (bad.empty ()) { char log [256] ; sf_command (f, SFC_GET_LOG_INFO, log, sizeof (log)) ; double mx ; sf_command (f, SFC_CALC_SIGNAL_MAX, &mx, sizeof (mx)) ; snap () ; } }
 	else { do_read (10) ; if (bad.empty ()) do_seek (0, SEEK_END | SFM_WRITE) ; if (bad.empty ()) do_write (20) ; if (bad.empty ()) do_seek (0, SEEK_SET | SFM_READ) ; if (bad.empty ()) do_read (6) ; if (bad.empty ()) do_write (4) ; }
 	int inv = sf_verif_check_invariants (f) ; if (inv && bad.empty ()) bad = "invariant|mask " + std::to_string (inv) ;
 	sf_close (f) ;	// must return and release everything; under a failing I/O layer its return value is not constrained
